@@ -272,13 +272,21 @@ func genSeqCache(prop string, seed uint64, tier string, kinds []string) *SeqScen
 		case CGet, CGetWithExpiration, CGetWithTTL, CGetAndDelete, CDelete:
 			sc.Ops = append(sc.Ops, Op{K: kind, Key: k})
 		case CGetOrSet, CGetAndSet, CGetOrCompute:
-			sc.Ops = append(sc.Ops, Op{K: kind, Key: k, Val: val(), D: d})
+			op := Op{K: kind, Key: k, Val: val(), D: d}
+			if prop == "C12" && kind == CGetOrCompute && g.r.Bool(0.25) {
+				op.Adv = int64(1 + g.r.Intn(6)) // a slow value function: both flavours must date the entry alike
+			}
+			sc.Ops = append(sc.Ops, op)
 			noteStore(k, d)
 		case CGetAndRefresh:
 			sc.Ops = append(sc.Ops, Op{K: kind, Key: k, D: d})
 			noteStore(k, d)
 		case CCompute:
-			sc.Ops = append(sc.Ops, Op{K: kind, Key: k, Val: val(), D: d, Fn: []FnKind{FnStore, FnDelete, FnDeleteIfLoaded, FnKeep, FnInc, FnDeleteIfAbsent}[g.r.Intn(6)]})
+			op := Op{K: kind, Key: k, Val: val(), D: d, Fn: []FnKind{FnStore, FnDelete, FnDeleteIfLoaded, FnKeep, FnInc, FnDeleteIfAbsent}[g.r.Intn(6)]}
+			if prop == "C12" && g.r.Bool(0.25) {
+				op.Adv = int64(1 + g.r.Intn(6))
+			}
+			sc.Ops = append(sc.Ops, op)
 			noteStore(k, d)
 		case CRange:
 			op := Op{K: CRange}
@@ -293,6 +301,11 @@ func genSeqCache(prop string, seed uint64, tier string, kinds []string) *SeqScen
 					// mutating visitors make later results depend on the visiting
 					// order, which legitimately differs between layouts
 					op.Vis = VisLoadOther
+					if prop == "C12" && g.r.Bool(0.3) {
+						// a slow visitor (the twins' clock is rewound between the two calls)
+						op.Vis = VisAdvance
+						op.D = int64(1 + g.r.Intn(6))
+					}
 				} else if g.r.Bool(0.25) {
 					op.Vis = VisAdvance // "unexpired when the traversal began" must hold although time passes
 					op.D = int64(1 + g.r.Intn(6))
